@@ -115,12 +115,28 @@ def gen_script(rng, linear=False, max_commits=8):
     if not linear:
         branches.append("b1")
         ops.append(["branch", "b0", "b1"])
-        if rng.random() < 0.5:
+        if rng.random() < 0.7:
             branches.append("b2")
             ops.append(["branch", "b0", "b2"])
     while ncommits < max_commits:
         b = rng.choice(branches)
         r = rng.random()
+        if len(branches) == 3 and r > 0.9 and ncommits + 4 <= max_commits + 2:
+            # octopus: the same file changed on all three branches, merged with three parents
+            fi = rng.randrange(2, 5)
+            for x in branches:
+                ops.append(rng.choice([["edit", x, fi, rng.randrange(4)], ["chmod", x, fi],
+                                       ["mv", x, fi, rng.randrange(2, 6), False]]))
+                ops.append(["commit", x])
+            others = [x for x in branches if x != b]
+            rng.shuffle(others)
+            for src in others:
+                ops.append([rng.choice(["merge", "merge", "addparent"]), b, src])
+            if rng.random() < 0.5:
+                ops.append(["edit", b, fi, rng.randrange(4)])
+            ops.append(["commit", b])
+            ncommits += 4
+            continue
         if not linear and r < 0.12:
             # identical parallel change (cherry-pick by content)
             o = rng.choice([x for x in branches if x != b])
@@ -136,16 +152,25 @@ def gen_script(rng, linear=False, max_commits=8):
             continue
         others = [x for x in branches if x != b]
         rng.shuffle(others)
-        nmerge = 2 if (len(others) > 1 and rng.random() < 0.3) else 1
+        nmerge = 2 if (len(others) > 1 and rng.random() < 0.4) else 1
         for src in others[:nmerge]:
             ops.append(["merge" if rng.random() < 0.8 else "addparent", b, src])
-        k = rng.random()
-        if k < 0.3:
-            ops.append(["revert", b, rng.randrange(1, 5)])
-        elif k < 0.5:
-            ops.append(["edit", b, rng.randrange(2, 5), rng.randrange(4)])
-        elif k < 0.6:
-            ops.append(_edit_op(rng, b))
+        # post-merge tweaks: the carry-over test must notice every attribute
+        for _ in range(rng.choice((0, 1, 1, 2))):
+            k = rng.random()
+            fi = rng.randrange(2, 5)
+            if k < 0.25:
+                ops.append(["revert", b, rng.randrange(1, 5)])
+            elif k < 0.40:
+                ops.append(["edit", b, fi, rng.randrange(4)])
+            elif k < 0.55:
+                ops.append(["chmod", b, fi])
+            elif k < 0.75:
+                ops.append(["mv", b, fi, rng.randrange(2, 6), rng.random() < 0.5])
+            elif k < 0.85:
+                ops.append(["kind", b, fi])
+            else:
+                ops.append(_edit_op(rng, b))
         ops.append(["commit", b])
         ncommits += 1
     return ops
@@ -396,7 +421,9 @@ def observe(world):
     wt = world.wts["b0"]
     repo = wt.branch.repository
     num = {rid: n for n, rid, _, _ in world.commits}
-    out = dict(commits=[], texts={}, extra_texts=[], check=None)
+    from breezy.bzr.vf_repository import VersionedFileCommitBuilder
+    out = dict(commits=[], texts={}, extra_texts=[], check=None,
+               revgraph_heads=(repo._commit_builder_class._heads is VersionedFileCommitBuilder._heads))
     with repo.lock_read():
         pm = repo.get_parent_map([rid for _, rid, _, _ in world.commits])
         for n, rid, wparents, snap in world.commits:
@@ -557,12 +584,15 @@ def _anc(pm, k, memo):
     return s
 
 
-def classify(obs, c, f):
-    """family slug of a failing (commit, file) — computed from the concrete input"""
-    return None
+FAMILY_REVGRAPH = "revgraph-heads-readded-file-id"
 
 
 def oracle(ctx, case, obs):
+    """returns [(message, family)]; family is computed from the failing (commit, file):
+    `revgraph-heads-readded-file-id` iff the format's commit builder takes heads in the
+    *revision* graph (VersionedFileCommitBuilder._heads not overridden: knit formats) and for
+    this commit and file id the revision-graph heads of the parents' versions differ from
+    the per-file-graph heads (a file id deleted and re-added between two of the versions)."""
     bad = []
     commits = {c["n"]: c for c in obs["commits"]}
     rpm = {n: c["parents"] for n, c in commits.items()}
@@ -572,62 +602,80 @@ def oracle(ctx, case, obs):
         f, r = map(int, k.split("."))
         tg[(f, r)] = [(f, p) for p in ps]
     tmemo = {}
+    fam_at = {}
+
+    def cands_heads(c, f):
+        fi = int(f)
+        cands = []
+        for p in c["parents"]:
+            pr = commits[p]["inv"].get(f)
+            if pr is not None and pr not in cands:
+                cands.append(pr)
+        hs = [h for h in cands
+              if not any(o != h and (fi, h) in _anc(tg, (fi, o), tmemo) for o in cands)]
+        rhs = [h for h in cands if not any(o != h and h in _anc(rpm, o, rmemo) for o in cands)]
+        fam = FAMILY_REVGRAPH if (obs.get("revgraph_heads") and rhs != hs) else None
+        fam_at[(c["n"], fi)] = fam
+        return cands, hs, fam
+
     for c in obs["commits"]:
         n = c["n"]
         if c["parents"] != c["wparents"]:
-            bad.append("r%d: recorded parents %r != working tree parents %r" % (n, c["parents"], c["wparents"]))
+            bad.append(("r%d: recorded parents %r != working tree parents %r" % (n, c["parents"], c["wparents"]), None))
         if c["attrs"] != c["snap"]:
-            bad.append("r%d: committed attributes differ from the working tree state: %r vs %r" % (n, c["attrs"], c["snap"]))
+            bad.append(("r%d: committed attributes differ from the working tree state: %r vs %r" % (
+                n, c["attrs"], c["snap"]), None))
         for f, lr in c["inv"].items():
-            fi = int(f)
             a = c["attrs"][f]
             # soundness
             if lr != n and lr not in _anc(rpm, n, rmemo):
-                bad.append("r%d file %s: last-changed r%d is not an ancestor" % (n, f, lr))
+                bad.append(("r%d file %s: last-changed r%d is not an ancestor" % (n, f, lr), None))
                 continue
             src = commits[lr]
             if src["attrs"].get(f) != a or src["inv"].get(f) != lr:
-                bad.append("r%d file %s: last-changed r%d holds different attributes %r vs %r" % (
-                    n, f, lr, src["attrs"].get(f), a))
+                bad.append(("r%d file %s: last-changed r%d holds different attributes %r vs %r" % (
+                    n, f, lr, src["attrs"].get(f), a), None))
             # candidates / heads, own computation on the real text graph
-            cands = []
-            for p in c["parents"]:
-                pr = commits[p]["inv"].get(f)
-                if pr is not None and pr not in cands:
-                    cands.append(pr)
-            hs = [h for h in cands
-                  if not any(o != h and (fi, h) in _anc(tg, (fi, o), tmemo) for o in cands)]
+            cands, hs, fam = cands_heads(c, f)
             carry = len(hs) == 1 and commits[hs[0]]["attrs"].get(f) == a
             if (lr != n) != carry:
-                bad.append("r%d file %s: last-changed r%d but heads of parents' versions %r (candidates %r), "
-                           "attributes %s the head's" % (n, f, lr, hs, cands,
-                                                         "equal" if carry else "differ from"))
+                bad.append(("r%d file %s: last-changed r%d but heads of parents' versions %r (candidates %r), "
+                            "attributes %s the head's" % (n, f, lr, hs, cands,
+                                                          "equal" if carry else "differ from"), fam))
             if len(c["parents"]) == 1:
                 pa = commits[c["parents"][0]]["attrs"].get(f)
                 if (lr == n) != (pa != a):
-                    bad.append("r%d file %s (single parent): changed=%r but last-changed r%d" % (n, f, pa != a, lr))
+                    bad.append(("r%d file %s (single parent): changed=%r but last-changed r%d" % (
+                        n, f, pa != a, lr), None))
             if not c["parents"] and lr != n:
-                bad.append("r%d file %s: initial commit names r%d" % (n, f, lr))
+                bad.append(("r%d file %s: initial commit names r%d" % (n, f, lr), None))
             key = "%s.%d" % (f, n)
             if lr == n:
                 if key not in obs["texts"]:
-                    bad.append("r%d file %s: no text key for the new version" % (n, f))
+                    bad.append(("r%d file %s: no text key for the new version" % (n, f), None))
                 elif obs["texts"][key] != hs:
-                    bad.append("r%d file %s: stored per-file parents %r, heads of the parents' versions %r "
-                               "(candidates %r)" % (n, f, obs["texts"][key], hs, cands))
+                    bad.append(("r%d file %s: stored per-file parents %r, heads of the parents' versions %r "
+                                "(candidates %r)" % (n, f, obs["texts"][key], hs, cands), fam))
             elif key in obs["texts"]:
-                bad.append("r%d file %s: text key stored although the entry names r%d" % (n, f, lr))
+                bad.append(("r%d file %s: text key stored although the entry names r%d" % (n, f, lr), None))
     for k in obs["texts"]:
         f, r = k.split(".")
         if commits[int(r)]["inv"].get(f) != int(r):
-            bad.append("text key %s is not referenced by inventory r%s" % (k, r))
+            bad.append(("text key %s is not referenced by inventory r%s" % (k, r), None))
     chk = obs["check"]
-    if chk["inconsistent"]:
-        bad.append("check(): inconsistent parents %r" % (chk["inconsistent"][:3],))
+    for inc in chk["inconsistent"]:
+        bad.append(("check(): inconsistent parents: revision r%d file %d stored %r expected %r" % tuple(inc),
+                    fam_at.get((inc[0], inc[1]))))
     if chk["unreferenced"]:
-        bad.append("check(): unreferenced versions %r" % (chk["unreferenced"][:3],))
-    for b in bad[:3]:
-        ctx.violation(case, b, family=None)
+        bad.append(("check(): unreferenced versions %r" % (chk["unreferenced"][:3],), None))
+    seen = set()
+    for msg, fam in bad:
+        if fam in seen and fam is not None:
+            continue
+        seen.add(fam)
+        ctx.violation(case, msg, family=fam)
+        if fam is None and len(seen) > 3:
+            break
     return bad
 
 
@@ -660,7 +708,7 @@ def _stats(ctx, obs):
 
 def run(ctx, n=None):
     fmts = ctx.pick(FORMATS_QUICK, FORMATS_ALL)
-    n = n or ctx.pick(36, 400)
+    n = n or ctx.pick(60, 500)
     items = []
     corpus_dir = os.path.join(env.VERIF, "corpus", "C02")
     if os.path.isdir(corpus_dir):
@@ -688,7 +736,13 @@ def run(ctx, n=None):
         ctx.count("fmt:" + fmt)
         ctx.count("ops_applied", obs["applied"])
         ctx.count("ops_skipped", obs["skipped"])
-        oracle(ctx, case, obs)
+        bad = oracle(ctx, case, obs)
+        if bad and all(fam is not None for _, fam in bad):
+            # the code deviates from the property on a classified input family: reported by the
+            # oracle above (VIOLATION / KNOWN-FINDING); the model describes the property-conforming
+            # behaviour, so the correspondence of this history is not counted as a tie failure
+            ctx.count("t2_skipped_classified_finding")
+            continue
         cases.append(case)
         lines.append(model_line(obs))
         impls.append(impl_reply(obs))
@@ -721,6 +775,7 @@ def replay(ctx, case):
     bad = oracle(ctx, case, obs)
     line = model_line(obs)
     m = ctx.model([line])[0] if ctx.model_available else None
-    return dict(case=case, impl=impl_reply(obs), model=m, line=line, oracle_failures=bad,
+    return dict(case=case, impl=impl_reply(obs), model=m, line=line,
+                oracle_failures=[dict(what=w, family=f) for w, f in bad],
                 commits=[dict(n=c["n"], parents=c["parents"], inv=c["inv"]) for c in obs["commits"]],
                 texts=obs["texts"], check=obs["check"])
